@@ -245,6 +245,65 @@ def rule_visfilter(P) -> RuleResult:
     return res
 
 
+def rule_subqnames(P) -> RuleResult:
+    """`SELECT * FROM (q)` returns q's rows and description unchanged: the subquery table presents one column per visible target
+    of q, in order - also when two targets of q have the same name."""
+    from ..symex import Sym as _S, T as _T, SList as _L, Engine as _E, show as _sh
+    res = RuleResult('R-SUBQNAMES')
+    res.exhaustive = True
+    st = P.cls(QC, 'SubqueryTable')
+    init = st.methods.get('__init__')
+    wc = P.find_method(st, 'wildcard_columns')
+    if init is None or not isinstance(wc, FuncInfo):
+        raise AnalysisError('anchor vanished: SubqueryTable.__init__ / wildcard_columns')
+    SELF, SUB = _S('SELF'), _S('SUBQ')
+    for label, vis_names in (('distinct names', ['c', 'a', 'b']), ('a repeated name', ['c', 'a', 'c', 'b'])):
+        tg = [_S(f'T{i}') for i in range(len(vis_names))]
+        names = dict(zip(tg, vis_names))
+        HID = _S('H')
+        order = tg[:1] + [HID] + tg[1:]
+
+        def on_attr(base, attr, ex):
+            if base == SUB and attr == 'c_targets':
+                return _L(list(order))
+            if base == SUB and attr == 'columns':
+                return _L(list(tg))
+            if base in names and attr == 'name':
+                return names[base]
+            if base == HID and attr == 'name':
+                return None
+            return NotImplemented
+
+        def on_call(fname, fval, recv, args, kw, ex, node):
+            if recv == SELF and isinstance(fname, str) and fname.endswith('.column'):
+                return _T('colclass', tuple(args))
+            if isinstance(fval, _T) and fval.op == 'colclass':
+                return _T('colinst', fval.args)
+            return NotImplemented
+        for p in _E(P, on_attr=on_attr, on_call=on_call).paths(init, {'self': SELF, 'subquery': SUB}):
+            if p.outcome == 'raise':
+                res.fail(init.fq, 'subqnames:rejected', f'a subquery with {label} among its targets is rejected ({p.value[0]})', loc(init))
+                continue
+            heap = dict(p.heap)
+
+            def on_attr2(base, attr, ex, _h=heap):
+                v = _h.get(_T('attr', (base, attr)))
+                return v if v is not None else NotImplemented
+            for q in _E(P, on_attr=on_attr2).paths(wc, {'self': SELF}):
+                v = q.value
+                items = list(v.items) if isinstance(v, _L) and not v.opaque_tail else list(v.args) if isinstance(v, _T) and v.op == 'tuple' else None
+                if items is None:
+                    raise AnalysisError(f'{wc.fq}: the expansion of `*` is not a concrete list of names on terms: {_sh(v)[:80]}')
+                if items == vis_names:
+                    res.ok({'subquery_targets': vis_names, 'star_expands_to': items})
+                else:
+                    res.fail(init.fq, 'subqnames:merged' if len(items) < len(vis_names) else 'subqnames:order',
+                             f'`SELECT * FROM (q)` must return q\'s rows and description unchanged; with {label} among the visible targets '
+                             f'of q ({vis_names}) the subquery table presents {items}: columns are kept in a mapping keyed by name, so '
+                             f'targets of the same name collapse into one column', loc(init))
+    return res
+
+
 def _visfilter_subquery(P, res):
     """SubqueryTable on terms: with a hidden inner target between two visible ones, every visible name maps to a column built from
     its position among the *visible* targets and its own data type; the rows are the result rows of that same subquery."""
